@@ -60,7 +60,7 @@ def program(rnd):
     d["repeat"] = r.random() < 0.2                       # serial loop around the phases inside the outer body
     d["sibling"] = r.choice([None, None, "tile", "plain", "plain2"])
     d["c"] = r.randint(-3, 5)
-    nph = r.choice([1, 2, 2, 3, 3, 4])
+    nph = r.choice([2, 3, 3, 4, 4]) if d["shared"] else r.choice([1, 2, 2, 3, 3, 4])
     NI = d["NI0"] * d["NI1"]
     phases = []
     wrote_s = False
@@ -74,7 +74,9 @@ def program(rnd):
         reads_s = False
         if d["excl"] and p > 0:
             atoms.append("e")
-        if d["shared"] and wrote_s:
+        # once @shared holds values a phase is either a *reader* (reads other work-items' cells, never writes @shared) or a
+        # *writer* (may overwrite @shared, never reads it): write -> read -> write sequences (write-after-read hazards) occur
+        if d["shared"] and wrote_s and r.random() < 0.65:
             k = r.randint(1, NI - 1) if NI > 1 else 0
             atoms.append("S[(li + %d) %% %d]" % (k, NI))
             atoms.append("S[%d - 1 - li]" % NI)
@@ -102,6 +104,10 @@ def program(rnd):
         # a phase must not both read other threads' shared values and overwrite shared (no barrier inside a phase)
         if reads_s:
             kinds = [k for k in kinds if k != "shared"] or ["out"]
+            if "out" not in kinds and "atomic" not in kinds and "excl" not in kinds:
+                kinds.append("out")          # a reader uses what it read
+        elif d["shared"] and wrote_s and "shared" not in kinds:
+            kinds.append("shared")           # a writer phase after a reader: the write-after-read pattern
         locs = []
         for kd in kinds:
             at = atoms + locs
